@@ -50,8 +50,8 @@ CHECKS = {
         engine="comp",
         category="exploration",
         technique="model-based property testing of sender and receiver flow control on real DataStreams/FlowController endpoints with asymmetric generated transport parameters; complete enumeration of short receiver histories",
-        text="The six initial flow-control parameters of both sides are drawn independently (incl. 0 and unequal uni/bidi). Sender stages: every emitted STREAM frame ends within the limit in force for that stream kind as the peer sees it, the sum of highest offsets stays within MAX_DATA, each byte is charged once (retransmissions free), unused credit is returned, DATA_BLOCKED/RESET values are right. Receiver stages: a scripted hostile peer places STREAM / FIN / RESET_STREAM at, one over and far over stream and connection limits: FLOW_CONTROL_ERROR iff over a limit; advertised MAX_DATA / MAX_STREAM_DATA never decrease. Pair stage: two real endpoints, any receive error is a violation. Every receiver history of <=3 ops over a 66-frame alphabet exhaustively (638k quick / 7.5M thorough) + 100k / 6.3M random histories.",
-        note="Frame dispatch and ack/loss feedback mirror qconnection's glue in harness code. Liveness only as two weak quiescence checks. 0-RTT window revision is C09/C12.",
+        text="The six initial flow-control parameters of both sides are drawn independently (incl. 0 and unequal uni/bidi). Sender stages: every emitted STREAM frame ends within the limit in force for that stream kind as the peer sees it, the sum of highest offsets stays within MAX_DATA, each byte is charged once (retransmissions free), unused credit is returned, DATA_BLOCKED/RESET values are right. Receiver stages: a scripted hostile peer places STREAM / FIN / RESET_STREAM at, one over and far over stream and connection limits: FLOW_CONTROL_ERROR iff over a limit; advertised MAX_DATA / MAX_STREAM_DATA never decrease. Pair stage: two real endpoints, any receive error is a violation. 0-RTT stage (sender-zero-rtt): a resuming client built as builder.rs builds it sends under three independently drawn parameter sets (local, remembered, granted), then recv_remote_params / revise_params / revise_max_data run in the order the handshake runs them with 0-RTT accepted or rejected, and the full sender alphabet continues; limits are judged as the server sees them (30k quick / 1.5M thorough). Every receiver history of <=3 ops over a 66-frame alphabet exhaustively (638k quick / 7.5M thorough) + 100k / 6.3M random histories.",
+        note="Frame dispatch and ack/loss feedback mirror qconnection's glue in harness code. Liveness only as two weak quiescence checks. In the 0-RTT stage nothing from the server is processed, and no stream is cancelled, before the handshake completes.",
         design_ref="DESIGN.md §2.2, §3 C11",
     ),
     "C12": dict(
@@ -98,7 +98,7 @@ CHECKS = {
         engine="e2e",
         category="fault_enumeration",
         technique="property-based fault injection: proptest-generated fault schedules, workloads and transport parameters run on the real dquic client+server over an in-memory network under tokio virtual time; oracle = data prefix-equality, no panic, no send storm, completion / no-hang by profile",
-        text="Each case runs the unmodified client and server stacks end to end (TLS handshake, packet protection, loss recovery) over simnet with a generated schedule of drop / delay / duplicate / replay / bit-flip / truncate faults per datagram index, pseudo-random loss, or a black hole, with generated flow-control/stream-count/idle parameters and 0-5 uni/bidi streams opened by either side. Safety clauses are asserted on every case; completion only where faults are strictly bounded (<=6 loss-equivalent datagrams); no-hang where a sound virtual-time bound exists. 320 cases quick, 40 000 thorough; failures shrink to a minimal schedule/workload.",
+        text="Each case runs the unmodified client and server stacks end to end (TLS handshake, packet protection, loss recovery) over simnet with a generated schedule of drop / delay / duplicate / replay / reflect-to-sender / bit-flip / truncate / replace-by-garbage faults per datagram index, pseudo-random loss, or a black hole, with generated flow-control/stream-count/idle parameters and 0-5 uni/bidi streams opened by either side. Safety clauses are asserted on every case; completion only where faults are strictly bounded (<=6 loss-equivalent datagrams); no-hang where a sound virtual-time bound exists. 1200 cases quick, 40 000 thorough; failures shrink to a minimal schedule/workload.",
         note="One current-thread runtime per case with paused clock (FIFO wake order): multi-thread interleavings are not explored. Ciphertext is not reproducible (library RNG) and never enters the oracle. 'Tampered packets are never accepted' is decided behaviourally (a tampered datagram must not break a connection that survives the same schedule with drops instead) plus C06 at packet level. Perpetual-loss profiles assert safety only.",
         design_ref="DESIGN.md §2.1, §3 C02",
     ),
